@@ -244,14 +244,15 @@ func refBadfiltered(r *rules.NetworkRule, cands []*rules.NetworkRule, keys map[*
 func genC02(t *rapid.T) c02Case {
 	nl := rapid.IntRange(1, 3).Draw(t, "nlists")
 	c := c02Case{IDs: genListIDs(t, nl)}
-	hostsU := []string{"example.org", "www.example.org", "google.com", "a.com", "1.2.3.4", "notexample.org", "sub.example.org", "реклама.example", "счётчик.example", "abc.de", "track.track.example.net", "ab.cd.ab.cd", "ad-server.example.org", "ad_server.example.org", "example.org.evil.example", "example.organic.example", "abc.de.x.example", zeroHashNames[0], zeroHashNames[1]} // the last two hash to 0
+	hostsU := []string{"example.org", "www.example.org", "google.com", "a.com", "1.2.3.4", "notexample.org", "sub.example.org", "реклама.example", "счётчик.example", "abc.de", "track.track.example.net", "ab.cd.ab.cd", "ad-server.example.org", "ad_server.example.org", "example.org.evil.example", "example.organic.example", "abc.de.x.example", "trk.example.com", "adserver.example.com", "ads.example.com", "banner.example.net", zeroHashNames[0], zeroHashNames[1]} // the last two hash to 0
 	for _, cp := range hostColliders[:3] {
 		hostsU = append(hostsU, cp[0], cp[1])
 	}
 	netPats := []string{"||example.org^", "||google.com^", "example", "a.com|", "||1.2.3.4^", "google", "||a.com^", "://1.2.", "|example.org|", "org",
 		"||реклама.example^", "счётчик", "||abc.de^", "||track.example.net^", ".track.example.net^", "||ab.cd^", "abc.de",
 		"/^Tracker[0-9]+\\.example\\.com/", "/Example\\.ORG/", "/^Ads[.-]/",
-		"/ad-server.", "/sub.", "/ad_server.", "/track.track.", "||example.org/*", "||abc.de/*", "example.org/*"}
+		"/ad-server.", "/sub.", "/ad_server.", "/track.track.", "||example.org/*", "||abc.de/*", "example.org/*",
+		"/^adserver\\.|^trk\\./", "/(^|\\.)ads\\.|^banner/"}
 	for _, cp := range hostColliders[:3] {
 		netPats = append(netPats, "||"+cp[0]+"^", "||"+cp[1]+"^", cp[0][:4], "/^"+cp[0][:3]+"[0-9]/")
 	}
@@ -271,7 +272,7 @@ func genC02(t *rapid.T) c02Case {
 		li := rapid.IntRange(0, nl-1).Draw(t, "list")
 		if chance(t, "hosts-line", 3) {
 			hs := subsetOf(t, "names", hostsU, 3)
-			ip := pick(t, "ip", []string{"0.0.0.0", "127.0.0.1", "::", "::1", "::ffff:1.2.3.4", "10.0.0.1", "fe80::1"})
+			ip := pick(t, "ip", []string{"0.0.0.0", "127.0.0.1", "::", "::1", "::ffff:1.2.3.4", "10.0.0.1", "fe80::1", "fe80::1%lo0", "0000:0000:0000:0000:0000:ffff:192.168.100.200"})
 			if chance(t, "bare-domain", 4) {
 				c.Entries = append(c.Entries, c02Entry{Text: hs[0] + pick(t, "bare-tail", []string{"", "", " # note", "\t# note", "\t#x", "  #"}), List: li, Names: plainNames(hs[:1]), IP: "0.0.0.0"})
 			} else if rare(t, "long-hosts-line", 8) {
